@@ -17,9 +17,11 @@ Additional grammar (on top of T9):
   builders     `<n> = Circuit()` as the first statement and `return <n>`: the new circuit is the state that the
                body mutates, `self` (a Circuit, or a Block together with its `_owner`) is a read-only value.
   while        `while <local list>:` -> a separate Fixpoint on explicit fuel, `Err OutOfFuel` when it runs out.
-               The fuel is a PARAMETER of the generated function (one per loop and one per call of a function
-               that has fuel parameters, in source order), so that the equality lemmas can instantiate it with
-               the fuel of the hand model.  The body may not write the circuit.
+               The fuel is a PARAMETER of the generated function, so that the equality lemmas can instantiate
+               it with the fuel of the hand model: `fuelN : nat` for a loop of the function itself, and
+               `fuelN : circuit -> nat` for every fuel parameter of a function it calls (the function is applied
+               to the circuit the callee runs on, at the call: the model computes its fuel from that state),
+               in source order.  The body may not write the circuit.
                `l.pop()`, `l.pop(0)` (also inside an expression: the list is rebound), `l[-1]` -> list_pop,
                list_pop0, list_last (Err PyIndexError on an empty list).
   generators   `yield <gate>` appends (label, gate) to the list of yielded values, which is what the function
@@ -98,7 +100,8 @@ HEADER = '''(* GENERATED by translator/t10_circuit_algos.py from cirbo/core/circ
 
    Conventions (see the header of the translator):
    - a `while <list>:` loop is a Fixpoint on explicit fuel (Err OutOfFuel); the fuel parameters fuel1, fuel2, ...
-     of a function stand for its loops and for the fuelled functions it calls, in source order;
+     of a function stand for its loops (a number) and for the fuel parameters of the functions it calls (a function
+     of the circuit the callee runs on, applied to that circuit at the call), in source order;
    - a generator returns the list of the (label, gate) pairs it yields and is run to completion before its
      consumer starts;
    - a second circuit argument (`other`, `subcircuit`) is a different object from self;
@@ -296,6 +299,7 @@ class AlgoTr(FnTr):
     def __init__(self, unit, modkey, src, coqname, outer=None):
         super().__init__(unit, modkey, src, coqname, outer)
         self.fn.fuel_names = []
+        self.fn.fuel_kinds = {}         # name -> 'nat' (a loop of this function) | 'fun' (a call site)
         self.fn.builder = None
         self.fn.hooks = set()
         self.local_imports = set()
@@ -307,7 +311,7 @@ class AlgoTr(FnTr):
         self.loop_names = {}
 
     # ------------------------------------------------------------ fuel
-    def alloc_fuel(self, node, n=1):
+    def alloc_fuel(self, node, n=1, kind='nat'):
         if self.outer is not None:
             fail(node, 'fuel inside a closure')
         key = id(node)
@@ -316,6 +320,7 @@ class AlgoTr(FnTr):
             for _ in range(n):
                 nm = f'fuel{len(self.fn.fuel_names) + 1}'
                 self.fn.fuel_names.append(nm)
+                self.fn.fuel_kinds[nm] = kind
                 names.append(nm)
             self.fuel_sites[key] = names
         return self.fuel_sites[key]
@@ -454,7 +459,7 @@ class AlgoTr(FnTr):
         return super().default_code(d, ty)
 
     def binders(self):
-        out = [f'({n} : nat)' for n in self.fn.fuel_names]
+        out = [f'({n} : {"nat" if self.fn.fuel_kinds[n] == "nat" else "circuit -> nat"})' for n in self.fn.fuel_names]
         if self.builder:
             out.append('(self : block) (self_owner : circuit)' if self.modkey == 'block' else '(self : circuit)')
         elif self.fn.self_kind in ('method', 'closure'):
@@ -1076,11 +1081,20 @@ class AlgoTr(FnTr):
         node = site
         if getattr(callee, 'uses_fresh', False):
             fail(node, 'call of a function that consumes uuid values')
-        n = len(getattr(callee, 'fuel_names', []))
-        if n:
-            fuels = self.alloc_fuel(node, n)
+        cf = getattr(callee, 'fuel_names', [])
+        if cf:
+            # the fuel of a call is a function of the circuit the callee runs on, evaluated at the call
+            if c[0] in ('method', 'bmethod'):
+                recv = env[c[2].id].code
+            else:
+                idx = [i for i, p_ in enumerate(callee.params) if p_[1] == 'circuit']
+                if len(idx) != 1:
+                    fail(node, 'fuel for a call without a circuit')
+                recv = self._last_args[idx[0]]
+            fuels = self.alloc_fuel(node, len(cf), 'fun')
+            args = [f'({f_} {recv})' if callee.fuel_kinds[cn] == 'nat' else f_ for f_, cn in zip(fuels, cf)]
             assert code.startswith(callee.coqname)
-            code = callee.coqname + ' ' + ' '.join(fuels) + code[len(callee.coqname):]
+            code = callee.coqname + ' ' + ' '.join(args) + code[len(callee.coqname):]
         return code, callee
 
     # ------------------------------------------------------------ statements
@@ -1751,7 +1765,7 @@ class AlgoTr(FnTr):
                 fn.text = f'Definition {fn.coqname} {self.binders()} : {fn.result_coq_ty()} :=\n  {v.code}.\n'
                 return fn
             self.tmp = save
-            self.fuel_sites, fn.fuel_names = {}, []
+            self.fuel_sites, fn.fuel_names, fn.fuel_kinds = {}, [], {}
         if self.is_property:
             fail(f, 'a property must be a single `return <pure expression>`')
         code = self.stmts(body, env, K(lambda e: self.fallthrough(e), True, True))
